@@ -334,6 +334,117 @@ func c13_2(c *core.Ctx, p *core.Prog) {
 		c.Check(len(bad) == 0, "history-independent", p.Pos(scan.Pos()), core.FuncName(scan), "the scan's decisions depend on the field, the column and the transform map only",
 			fmt.Sprintf("the dictionary scan takes a decision from other state of the record builder at %v: a column can be skipped depending on what the stream carried before (e.g. because a column of the same leaf name overflowed), and its dictionary then outgrows its index width and the configured limit unobserved", bad))
 	}
+	// every dictionary column that reaches the scan is measured: on the arm of the `*array.Dictionary` column every
+	// path reports the dictionary's length to the column's transform — a report made only when something else holds
+	// (the length differs from the last one seen, a counter is due) lets a record pass on which the limit and the
+	// index width were never evaluated, e.g. the record rebuilt after a dictionary restart
+	{
+		isReport := func(i ssa.Instruction) bool {
+			cl, ok := i.(*ssa.Call)
+			if !ok {
+				return false
+			}
+			f := core.CalleeObj(cl)
+			if f == nil || core.RecvNamed(f) == nil || !strings.Contains(core.RecvNamed(f).Obj().Name(), "DictionaryField") {
+				return false
+			}
+			for _, a := range cl.Call.Args {
+				if !isInt(a.Type()) {
+					continue
+				}
+				if core.DerivesFrom(a, func(v ssa.Value) bool {
+					c2, ok := v.(*ssa.Call)
+					if !ok {
+						return false
+					}
+					g := core.CalleeObj(c2)
+					if g == nil || g.Name() != "Len" {
+						return false
+					}
+					// the length of the dictionary, not of the index column
+					recv := core.CallRecv(c2)
+					return recv != nil && core.DerivesFrom(recv, func(w ssa.Value) bool {
+						c3, ok := w.(*ssa.Call)
+						return ok && core.CalleeObj(c3) != nil && core.CalleeObj(c3).Name() == "Dictionary"
+					})
+				}) {
+					return true
+				}
+			}
+			return false
+		}
+		nArm := 0
+		for _, f := range core.WithClosures(scan) {
+			f := f
+			core.EachInstr(f, func(i ssa.Instruction) {
+				ta, ok := i.(*ssa.TypeAssert)
+				if !ok || core.TypeName(ta.AssertedType) != "Dictionary" || !strings.HasPrefix(core.TypePkgPath(ta.AssertedType), core.ArrowPath) {
+					return
+				}
+				var start ssa.Instruction
+				if ta.CommaOk {
+					for _, r := range core.Referrers(ta) {
+						if e, ok := r.(*ssa.Extract); ok && e.Index == 1 {
+							for _, r2 := range core.Referrers(e) {
+								if iff, ok := r2.(*ssa.If); ok {
+									start = iff.Block().Succs[0].Instrs[0]
+								}
+							}
+						}
+					}
+				} else {
+					start = ta
+				}
+				if start == nil {
+					return
+				}
+				nArm++
+				helperReports := func(i ssa.Instruction) bool {
+					if isReport(i) {
+						return true
+					}
+					cl, ok := i.(*ssa.Call)
+					if !ok {
+						return false
+					}
+					h := cl.Call.StaticCallee()
+					if h == nil || len(h.Blocks) == 0 || h == scan || !core.InRepo(core.FnPkgPath(h)) {
+						return false
+					}
+					rep := false
+					core.EachInstr(h, func(j ssa.Instruction) {
+						if c2, ok := j.(*ssa.Call); ok {
+							if g := core.CalleeObj(c2); g != nil && core.RecvNamed(g) != nil && strings.Contains(core.RecvNamed(g).Obj().Name(), "DictionaryField") && len(c2.Call.Args) > 1 {
+								rep = true
+							}
+						}
+					})
+					if !rep {
+						return false
+					}
+					miss, _ := (core.PathQuery{Fn: h, ExitReturnOnly: true, Avoid: func(j ssa.Instruction) bool {
+						c2, ok := j.(*ssa.Call)
+						if !ok {
+							return false
+						}
+						g := core.CalleeObj(c2)
+						return g != nil && core.RecvNamed(g) != nil && strings.Contains(core.RecvNamed(g).Obj().Name(), "DictionaryField") && len(c2.Call.Args) > 1
+					}}).Exists()
+					return !miss
+				}
+				if helperReports(start) {
+					c.OK(fmt.Sprintf("measured#%d", nArm), p.Pos(ta.Pos()), core.FuncName(f), "every path of the dictionary-column arm reports the dictionary's length to the transform")
+					return
+				}
+				miss, _ := (core.PathQuery{Fn: f, From: start, ExitReturnOnly: true, Avoid: helperReports}).Exists()
+				c.Check(!miss, fmt.Sprintf("measured#%d", nArm), p.Pos(ta.Pos()), core.FuncName(f), "every path of the dictionary-column arm reports the dictionary's length to the transform",
+					"a dictionary column can pass the scan without its dictionary's length being reported to the transform (the report is made under a further condition): the limit and the index width are not evaluated for that record — the record rebuilt after a dictionary restart, or a dictionary whose length happens to repeat, is sent over the limit")
+			})
+		}
+		if nArm == 0 {
+			c.Undecided("measured", p.Pos(scan.Pos()), core.FuncName(scan), "no `*array.Dictionary` arm found in the dictionary scan")
+		}
+	}
 	for _, kind := range []string{"StructType", "ListType", "UnionType", "MapType"} {
 		iff := arms[kind]
 		if iff == nil && kind == "UnionType" {
